@@ -31,7 +31,7 @@ PROPS["C02"] = {
     "level_text": "Theorems (Props/C02.v) over the Gallina model of message.go: validate m = VOk <-> wf_frame m for every byte string, no out-of-bounds index, every single-byte corruption of a well-formed frame rejected, accessors in bounds, rendering total - general proofs by case analysis and modular arithmetic, no bound on length. The model is tied to the compiled code by bounded-exhaustive (protocol alphabet) and random differential correspondence at both slice capacities, and the client clause by stream-level correspondence.",
     "level_note": "Trusted: Coq kernel, hand-written model of message.go (validated by correspondence, not generated), Go slice model, harness. No axioms. For Message.Validate, Checksum and the accessors: Tie T (Tie/BytesAgree.v): the function as REGENERATED statement by statement from the Go source on every run (Gen/Bytes.v, every index/slice a possible panic) is proved equal to the hand-written model on every input, so the theorems speak about the current source; the correspondence runs then only validate the translator and the slice-capacity abstraction.",
     "technique": "Rocq proof over hand-written Gallina model + exhaustive/differential correspondence (vm_compute)",
-    "tie_files": ["Tie/BytesAgree.v"],
+    "tie_files": ["Tie/ClientAgree.v", "Tie/BytesAgree.v"],
     "props_file": "Props/C02.v",
     "eval_modules": ["Run.EvalFrame", "Run.EvalClient"],
     "imports": ["XS.Lib.Bufio", "XS.Spec.ClientOps"],
@@ -116,7 +116,7 @@ PROPS["C14"] = {
     "level_note": "Trusted: Coq kernel, hand-written decoder models (validated by correspondence), translator (command table), strings.TrimSpace modelled on ASCII input only, harness. No axioms. Tie T for the client's stateful core (Tie/ClientAgree.v): Client.Receive and Client.ScanMeasurementData as REGENERATED statement by statement from client.go on every run (Gen/ClientFns.v) are proved to agree with the model's receive / scan_md for every client state and every scanner step; the scanner step itself is the bufio model of C01.",
     "technique": "Rocq proof over Gallina decoder models + translator-generated command table + differential correspondence through Client.Get*",
     "props_file": "Props/C14.v",
-    "tie_files": ["Tie/ClientAgree.v", "Tie/CommandsAgree.v"],
+    "tie_files": ["Tie/BytesAgree.v", "Tie/ClientAgree.v", "Tie/CommandsAgree.v"],
     "eval_module": "Run.EvalConfig",
     "kinds": {"query": {"type": "case_query", "chk": "chk_query", "sig": "sig_query", "scope": "N_scope"}},
     "rule": "each of the six Get* commands run on a real client whose port delivers an unrelated frame then the acknowledge with the given payload: every length 0..24 (3 contents each below 10), every 8th length to 248, 250..254, one extended-length payload; product code payloads are printable ASCII padded with all six ASCII whitespace characters; a returned value together with an error counts as a panic-class failure. non-trivial = non-empty payload; distinct = distinct case terms",
@@ -152,7 +152,7 @@ PROPS["C03"] = {
     "level_text": "Theorem client_refines_spec (Props/C03.v): for every stream, read schedule (empty reads included), error convention and operation sequence, the model client - client.go rendered statement by statement over the bufio.Scanner model, with the dispatch table and size function regenerated from source - returns what the abstract client over the reference segmentation returns wherever the latter is defined (API protocol respected). On the abstract client: scan steps visit exactly the packets of the current measurement payload, once each, in wire order, true exactly for supported complete packets, then false for ever; at most |payload|/3 steps; after any receive no packet is current and everything scanned later belongs to the frame just delivered. Proof by a simulation relation preserved by every operation. Values: checked by the correspondence against a fresh decoding by the same Go type.",
     "level_note": CLIENT_LEVEL_NOTE + " Tie T for the client's stateful core (Tie/ClientAgree.v): Client.Receive and Client.ScanMeasurementData as REGENERATED statement by statement from client.go on every run (Gen/ClientFns.v) are proved to agree with the model's receive / scan_md for every client state and every scanner step; the scanner step itself is the bufio model of C01.",
     "technique": "Rocq refinement proof (simulation relation, induction over operation sequences) + differential correspondence on call sequences",
-    "tie_files": ["Tie/ClientAgree.v"],
+    "tie_files": ["Tie/FixedAgree.v", "Tie/BytesAgree.v", "Tie/ClientAgree.v"],
     "props_file": "Props/C03.v",
     "eval_modules": ["Run.EvalClient"],
     "imports": ["XS.Lib.Bufio", "XS.Spec.ClientOps"],
@@ -166,7 +166,7 @@ PROPS["C08"] = {
     "level_note": CLIENT_LEVEL_NOTE + " Tie T for the client's stateful core (Tie/ClientAgree.v): Client.Receive and Client.ScanMeasurementData as REGENERATED statement by statement from client.go on every run (Gen/ClientFns.v) are proved to agree with the model's receive / scan_md for every client state and every scanner step; the scanner step itself is the bufio model of C01.",
     "technique": "Rocq refinement proof + translator-generated command table + differential correspondence on command sequences",
     "props_file": "Props/C08.v",
-    "tie_files": ["Tie/ClientAgree.v", "Tie/CommandsAgree.v"],
+    "tie_files": ["Tie/BytesAgree.v", "Tie/ClientAgree.v", "Tie/CommandsAgree.v"],
     "eval_modules": ["Run.EvalClient"],
     "imports": ["XS.Lib.Bufio", "XS.Spec.ClientOps"],
     "kinds": {"client": CLIENT_KIND},
@@ -178,7 +178,7 @@ PROPS["C09"] = {
     "level_text": "Theorems (Props/C09.v): for every byte stream, read schedule and error convention, every observation the API protocol allows is a value, never a panic (client_refines_spec + the abstract client never asks for a panic); all model functions are total Gallina functions with explicit fuel and the fuel is shown sufficient (scan: mu+2, receive-until: pending+unread+2), so every call returns; at most |stream|/5 frames are delivered and at most |payload|/3 scan steps report a packet; every exported decoder model is total (never OOB/Panic). Partial: a port whose Read blocks for ever is outside any executable model.",
     "level_note": CLIENT_LEVEL_NOTE + " Runtime share not modelled: blocking reads.",
     "technique": "Rocq refinement proof + totality lemmas + differential correspondence on arbitrary / mutated streams",
-    "tie_files": ["Tie/ClientAgree.v"],
+    "tie_files": ["Tie/BytesAgree.v", "Tie/ClientAgree.v"],
     "props_file": "Props/C09.v",
     "eval_modules": ["Run.EvalClient"],
     "imports": ["XS.Lib.Bufio", "XS.Spec.ClientOps"],
@@ -191,7 +191,7 @@ PROPS["C10"] = {
     "level_text": "Theorems (Props/C10.v): client_refines_spec for every prefix, failure point, error value, (n, err) convention (error with the last data or by its own read, 0-byte reads before it) and fragmentation; on the abstract client the receives deliver every complete frame of the prefix in order (accepted or rejected), never the incomplete tail, then the terminal cause on that and every later receive - the port's error when the reference segmentation does not end in TooLong (io.EOF = orderly end); a rejected frame is one element of that list, frames after it are delivered. The strict statement is refuted by computation for the oversize-header shape (finding K1, known_findings.txt).",
     "level_note": CLIENT_LEVEL_NOTE + " Finding K1 is recorded, not repaired: the check reports it as KNOWN-FINDING and fails for any other violation.",
     "technique": "Rocq refinement proof + refutation witness by vm_compute + differential correspondence with failure injection at every offset",
-    "tie_files": ["Tie/ClientAgree.v"],
+    "tie_files": ["Tie/BytesAgree.v", "Tie/ClientAgree.v"],
     "props_file": "Props/C10.v",
     "eval_modules": ["Run.EvalClient"],
     "imports": ["XS.Lib.Bufio", "XS.Spec.ClientOps"],
@@ -223,7 +223,7 @@ PROPS["C04"] = {
     "level_note": "Trusted: Coq kernel; translator (layouts); Flocq as the IEEE-754 semantics; hand-written field codec model (validated by correspondence); protocol layout table; harness. Axioms: the standard-library real-number axioms and classic/functional extensionality that Flocq's correctness theorems depend on (listed in the evidence).",
     "technique": "Rocq proof (induction over generated layouts, Flocq for IEEE-754) + translator-generated layouts + differential correspondence",
     "props_file": "Props/C04.v",
-    "tie_files": ["Tie/LayoutsAgree.v"],
+    "tie_files": ["Tie/FixedAgree.v", "Tie/LayoutsAgree.v"],
     "eval_modules": ["Run.EvalCodec"],
     "imports": ["XS.Run.EvalConfig"],
     "kinds": {
@@ -290,6 +290,7 @@ PROPS["C16"] = {
     "level_text": "Theorems (Props/C16.v) over Model.Link - client (send / receiveUntil with the identifiers of the generated command table) and emulator receive loop (Model.Emulator.estep split into 'update state' and 'write acknowledge') as separately scheduled steps over two FIFO channels - for EVERY schedule, every command sequence of any length and every configuration of up to 512 in-range settings: each enabled step consumes exactly one of 4*|cmds| units and some step is always enabled while a command is outstanding (so every command completes, none fails); whenever the client is between commands the emulator's mode and configuration are those of exactly the commands that have returned; MarshalMessage refuses a type iff no setting has it and otherwise uses the identifier of the setting of that type; in the data phase received ++ in-flight = transmitted (order, no loss/duplication/merging), every frame validates, Transmit writes iff the last command was go-to-measurement; on the skeleton regenerated from emulator.go, no path of an iteration of Receive writes shared state after a port write; and a marshalled measurement of a configured type is decoded by the client as exactly one packet of the dispatched Go type holding the value at the configured precision (unchanged when representable). Correspondence: real client + real emulator over synchronous and buffered in-memory links, GOMAXPROCS 1..16.",
     "level_note": "Channels carry frames: byte-level fragmentation independence is C01's theorem and the client's command loop refinement is C08's; the composition with them is by statement, not by a single Coq theorem. Goroutine scheduling itself is not modelled beyond interleaving of the four step kinds; the real runs only see the schedules that happen. The decoded-value clause is C16_configured_measurement_arrives (Proofs/DataPathProofs.v): generated dispatch table and layouts for the finite part, the generic codec theorems (Flocq; four standard-library axioms of the reals) for the values.",
     "technique": "Rocq proof (invariant + measure by induction over every schedule of an interleaving model; reflective order check of a skeleton translated from the Go AST on every run) + differential correspondence of real client/emulator runs against the model's canonical schedule",
+    "tie_files": ["Tie/FixedAgree.v", "Tie/ClientAgree.v", "Tie/BytesAgree.v"],
     "props_file": "Props/C16.v",
     "eval_modules": ["Run.EvalLink"],
     "imports": ["XS.Model.Link"],
@@ -317,6 +318,7 @@ PROPS["C18"] = {
     "level_text": "Theorems (Props/C18.v), by induction over every event history from any state: Transmit writes nothing and reports not-in-measurement-mode outside measurement mode, refuses a frame that is not wf_frame (C02) with the validation failure, writes a wf_frame exactly once unchanged; every event either sets the mode (go-to-measurement / send-mode switch: measuring; go-to-config / set-output-configuration: not) or leaves it, hence measuring <-> the most recent mode-affecting event is go-to-measurement or the switch; only well-formed frames ever reach the port. Correspondence: bounded-exhaustive histories over the seven event kinds plus random longer ones on a real emulator.",
     "level_note": EMU_NOTE,
     "technique": "Rocq proof (induction over event histories) over a Gallina state machine + bounded-exhaustive / random differential correspondence",
+    "tie_files": ["Tie/BytesAgree.v"],
     "props_file": "Props/C18.v",
     "eval_modules": ["Run.EvalEmu"],
     "imports": ["XS.Model.Emulator"],
